@@ -36,7 +36,7 @@ def worker(mod_json, wseed, nvalues, cfg_kw, spec_name, flags=drv.DEFAULT_FLAGS,
         return acc
     acc.extra["modules"] += 1
     try:
-        sess = pipeline.Session(mb, **getattr(spec, "DRIVER_KW", {}))
+        sess = pipeline.Session(mb, **getattr(spec, "DRIVER_KW", {"timeout": 25}))
         for ti, (tname, t) in enumerate(mod.types):
             feats = pipeline.type_features(mod, t)
             if hasattr(spec, "wants") and not spec.wants(mod, tname, t, feats):
@@ -46,13 +46,21 @@ def worker(mod_json, wseed, nvalues, cfg_kw, spec_name, flags=drv.DEFAULT_FLAGS,
             acc.extra["types"] += 1
             strat = spec.strategy(mod, t, cfg, feats)
 
-            def body(x, tname=tname, t=t, feats=feats, ttext=ttext):
+            hung = []
+
+            def body(x, tname=tname, t=t, feats=feats, ttext=ttext, hung=hung):
+                if hung:
+                    raise hung[0]      # a hang costs a full timeout per run: do not let the shrinker repeat it
                 try:
                     res = spec.run_case(sess, mod, tname, t, x, feats, acc)
                 except drv.DriverCrash as e:
                     replay = spec.make_replay(mod, tname, t, x)
-                    raise Fail(h(ttext, "crash"), "driver crashed/hung on %s ::= %s\ncase %s\n%s" % (
-                        tname, ttext[:600], val_repr(replay.get("x"), 400), str(e)[-1800:]), replay)
+                    f = Fail(h(ttext, "hang" if e.why.startswith("hang") else "crash"),
+                             "driver crashed/hung on %s ::= %s\ncase %s\n%s" % (
+                                 tname, ttext[:600], val_repr(replay.get("x"), 400), str(e)[-1800:]), replay)
+                    if e.why.startswith("hang"):
+                        hung.append(f)
+                    raise f
                 if res is None:
                     return
                 problems, classes, nt, replay = res
